@@ -5,6 +5,7 @@ package main
 // evaluates the rules mapped to one property (see /verif/DESIGN.md).
 
 import (
+	"golang.org/x/tools/go/ssa"
 	"encoding/json"
 	"flag"
 	"fmt"
@@ -289,6 +290,15 @@ func analyse(repo, tier string, props []string, ruleList string) (*runResult, in
 		}
 		curProg = prog
 		facts, ferr := computeFacts(prog)
+		prog.factMemo = nil
+		prog.opaque = map[*ssa.Function]bool{}
+		if facts != nil {
+			for _, a := range facts.Anchors {
+				if a != nil {
+					prog.opaque[a] = true
+				}
+			}
+		}
 		if ferr != nil {
 			fmt.Fprintf(os.Stderr, "ergocheck: fact extraction failed [%s]: %v\n", cfg.Name, ferr)
 			// fact failures are analysable outcomes: reported as undecided obligations by the rules
